@@ -78,9 +78,10 @@ class Collector:
         if extra_defs:
             return [None] * len(lines), [0] * len(lines)     # forced-hash builds belong to C08
         idx = list(range(len(lines)))
-        if len(idx) > self.cap:
+        cap = 2 if "corpus" in family else self.cap
+        if len(idx) > cap:
             r = self.rng.fork(family)
-            idx = sorted(r.shuffle(idx)[:self.cap])
+            idx = sorted(r.shuffle(idx)[:cap])
         sub = [lines[i] for i in idx]
         recs = run_sanitized(self.ctx, drive_api or api, sub, family, self.cfg, self.trace, keyfn)
         full = [None] * len(lines)
@@ -120,7 +121,7 @@ def run_sanitized(ctx, api, lines, family, cfg="dbg", trace=True, keyfn=None):
         if recs[i] is None:
             rc, err = crashed.get(i, (None, ""))
             fam["crashes"] += 1
-            ctx.violate("%s|crash|%s" % (api, site(line, crash_key(rc, err))),
+            ctx.violate("%s|crash|%s" % (api, site(line, vlib.refine_crash_key(crash_key(rc, err), api, line))),
                         "%s build: the process died (exit %s): %s" % (cfg, rc, crash_key(rc, err)),
                         api, line, None, "crash", cfg, (), err)
             continue
